@@ -67,8 +67,11 @@ def run(ctx):
     import blen
     blen.rule_B_LEN(ctx)
     blen.rule_L_ONCE(ctx)
-    ctx.undecided = ["bounds obligations of the lexical segmenters that rest on the reviewed invariant `a returned border never exceeds the "
-                     "slice it was computed on` (recorded per site in the table) rather than on a machine proof", "stack depth"]
+    ctx.undecided = ["the lower-bound half `a <= b` of the two `env[a..b]` sites (parse_items term region, segment_atom name region), the underflow "
+                     "obligations `len - k`, and the closure slice of segment_atom rest on reviewed reasons (T-DISJOINT, P-GUARD); the upper bounds "
+                     "of all lexical slice sites are machine-proved by B-LEN", "stack depth",
+                     "time beyond the structural necessary conditions L-PROGRESS and L-ONCE (the lexical error path clones the remaining input per "
+                     "failed alternative: quadratic in the nesting depth, bounded for the property's bounds)"]
     ctx.assumptions = ["lengths <= isize::MAX", "iterators driving `for` loops are finite", "external callees not on the may-panic list are total",
                        "nar_dev_utils prefix/suffix matching returns an entry that really is a prefix/suffix of the slice"]
     ctx.trusted = ["rustc MIR", "mirfacts driver", "the reviewed table checks/tables/panic_sites.json", "python rule layer"]
